@@ -122,7 +122,7 @@ Proof.
   intros G. unfold sem_add. destruct (queue s) as [|w q] eqn:E.
   - left. split; reflexivity.
   - right. pose proof (q_pc _ G w) as Hw. rewrite E in Hw. specialize (Hw (or_introl eq_refl)).
-    destruct (pcof s w) as [| | |g a| | | | | | | | | | | | | | | | | | | | | | | | | ] eqn:Ew;
+    destruct (pcof s w) as [| | |g a| | | | | | | | | | | | | | | | | | | | | | | | | | | | | | ] eqn:Ew;
       try discriminate Hw.
     destruct a; [discriminate Hw|].
     exists w, q, g. split; [reflexivity|]. split; [exact Ew|]. split; [|reflexivity].
